@@ -1,5 +1,5 @@
 (* C11 -- executable model of KDMixWrapper (kappadata/wrappers/sample_wrappers/kd_mix_wrapper.py,
-   REPAIRED tree: fixes/C11_partner_index_int.patch, fixes/C11_label_alias.patch), of
+   REPAIRED tree: fixes/C11_partner_index_int.patch, fixes/C11_label_alias.patch, fixes/C11_partner_ctx.patch), of
    to_one_hot_vector (kappadata/utils/one_hot.py) and of the part of ModeWrapper
    (kappadata/wrappers/mode_wrapper.py) that fuses "x" + "class" into one getitem_xclass call and
    unpacks the result.  No proofs in this file.
@@ -168,7 +168,8 @@ Record cfg := {
   mixup_alpha : option Q;
   cutmix_alpha : option Q;
   unify : unify_mode;          (* mixup_unify_shapes_mode *)
-  seed : option Z
+  seed : option Z;
+  with_ctx : bool              (* the request carries a context dictionary (ModeWrapper.propagate_ctx); else ctx is None *)
 }.
 
 Inductive draw :=
@@ -196,7 +197,9 @@ Record sample := {
   s_x : tensor;
   s_cls : list Q;
   s_mix : option (nat * Q);    (* partner and weight used for BOTH x and class; None = untouched *)
-  s_loads : list load
+  s_loads : list load;
+  s_ctx : list load            (* the loads that were handed the REQUEST's context dictionary (and may record into it);
+                                  the partner is loaded with a dictionary of its own: ctx2 = None if ctx is None else {} *)
 }.
 
 (* KDMixWrapper.getitem_xclass(idx) with the draws of the generator created in it; returns the
@@ -205,12 +208,13 @@ Definition getitem_xclass (ds : dataset) (c : cfg) (idx : nat) (dr : list draw) 
   let x := ds_x ds idx in
   let cls := ds_cls ds idx in
   let n_classes := ds_ncls ds in
+  let own := if with_ctx c then [LdX (Z.of_nat idx); LdClass (Z.of_nat idx)] else [] in
   match dr with
   | DUnit apply :: dr1 =>
       if Qltb (total_p c) apply then                       (* if apply > self.total_p *)
         match to_one_hot_vector cls n_classes with
         | Some v => Ok ({| s_x := x; s_cls := v; s_mix := None;
-                           s_loads := [LdX (Z.of_nat idx); LdClass (Z.of_nat idx)] |}, dr1)
+                           s_loads := [LdX (Z.of_nat idx); LdClass (Z.of_nat idx)]; s_ctx := own |}, dr1)
         | None => Err ELabel
         end
       else
@@ -245,7 +249,8 @@ Definition getitem_xclass (ds : dataset) (c : cfg) (idx : nat) (dr : list draw) 
                     Ok ({| s_x := mix_tensor lamb x x2u;
                            s_cls := mix_row lamb v v2;
                            s_mix := Some (Z.to_nat idx2, lamb);
-                           s_loads := [LdX (Z.of_nat idx); LdClass (Z.of_nat idx); LdX idx2; LdClass idx2] |}, dr3)
+                           s_loads := [LdX (Z.of_nat idx); LdClass (Z.of_nat idx); LdX idx2; LdClass idx2];
+                           s_ctx := own |}, dr3)
                 end
             | _ => Err EDraw
             end end end end
